@@ -302,3 +302,99 @@ Proof.
   unfold parse_with at 1. rewrite parse_items_rule0_rejects by exact Hok.
   rewrite Hpw. reflexivity.
 Qed.
+
+(* ------------------------------------------------------------------ *)
+(* the 11 listed formats, parsed back with the format given explicitly *)
+
+Definition fmt_k (k : nat) : list item := nth k rules fmt_default.
+
+(* formats without a time of day / with a sub-second field *)
+Definition date_only (k : nat) : bool :=
+  match k with 2%nat | 3%nat | 5%nat | 9%nat => true | _ => false end.
+Definition has_frac (k : nat) : bool := match k with 1%nat => true | _ => false end.
+
+Lemma parse_items_listed k f : (k < 11)%nat -> fields_ok f ->
+  parse_items (fmt_k k) (render (fmt_k k) f) parsed0
+  = Some (mk_parsed (Some (f_y f)) (Some (f_mo f)) (Some (f_d f))
+                    (if date_only k then None else Some (f_h f))
+                    (if date_only k then None else Some (f_mi f))
+                    (if date_only k then None else Some (f_s f))
+                    (if has_frac k then Some (f_ns f) else None)).
+Proof.
+  intros Hk (Hy & Hmo & Hd & Hh & Hmi & Hs & Hns).
+  do 11 (destruct k as [|k]; [
+    unfold fmt_k, rules, fmt_default, render, parsed0, dash, colon, slash, dot;
+    cbn [nth flat_map render_item app date_only has_frac];
+    repeat (rewrite <- app_assoc; cbn [app]);
+    repeat (cbn [parse_items];
+            first [ rewrite pi_lit | rewrite pi_sp by lia | rewrite pi_Y by lia | rewrite pi_mon by lia
+                  | rewrite pi_day by lia | rewrite pi_H by lia | rewrite pi_M by lia
+                  | rewrite pi_S by lia | rewrite pi_f by lia ]);
+    reflexivity |]).
+  lia.
+Qed.
+
+Lemma instant_back_sec u x : unit_code u -> in_i64 x = true -> x mod per_sec u = 0 ->
+  let secs := x / per_sec u in
+  instant_of u (secs / 86400) (secs mod 86400) 0 = x.
+Proof.
+  intros Hu Hx. unfold instant_of.
+  destruct Hu as [ -> | [ -> | [ -> | -> ] ] ].
+  - change (per_sec 0) with 1. cbn [Z.eqb Pos.eqb]. intros _. rewrite Z.div_1_r. zdm.
+  - change (giga / per_sec 1) with 1000000. change (per_sec 1) with 1000. cbn [Z.eqb Pos.eqb]. intros H. zdm.
+  - change (giga / per_sec 2) with 1000. change (per_sec 2) with 1000000. cbn [Z.eqb Pos.eqb]. intros H. zdm.
+  - change (per_sec 3) with 1000000000. cbn [Z.eqb Pos.eqb]. unfold giga. intros H.
+    replace ((x / 1000000000 / 86400 * 86400 + x / 1000000000 mod 86400) * 1000000000 + 0) with x by zdm.
+    rewrite Hx. reflexivity.
+Qed.
+
+Lemma instant_back_day u x : unit_code u -> in_i64 x = true -> x mod (86400 * per_sec u) = 0 ->
+  instant_of u (x / per_sec u / 86400) 0 0 = x.
+Proof.
+  intros Hu Hx. unfold instant_of.
+  destruct Hu as [ -> | [ -> | [ -> | -> ] ] ].
+  - change (per_sec 0) with 1. cbn [Z.eqb Pos.eqb]. intros H. rewrite Z.div_1_r. zdm.
+  - change (giga / per_sec 1) with 1000000. change (per_sec 1) with 1000. cbn [Z.eqb Pos.eqb]. intros H. zdm.
+  - change (giga / per_sec 2) with 1000. change (per_sec 2) with 1000000. cbn [Z.eqb Pos.eqb]. intros H. zdm.
+  - change (per_sec 3) with 1000000000. cbn [Z.eqb Pos.eqb]. unfold giga. intros H.
+    replace ((x / 1000000000 / 86400 * 86400 + 0) * 1000000000 + 0) with x by zdm.
+    rewrite Hx. reflexivity.
+Qed.
+
+Theorem dt_listed_roundtrip u k x f :
+  unit_code u -> (k < 11)%nat -> in_i64 x = true -> x <> i64_min ->
+  fields_of_instant u x = Some f -> 0 <= f_y f <= 9999 ->
+  (has_frac k = false -> x mod per_sec u = 0) ->
+  (date_only k = true -> x mod (86400 * per_sec u) = 0) ->
+  dt_format u (fmt_k k) x = Ok (render (fmt_k k) f) /\
+  parse_with u (fmt_k k) (render (fmt_k k) f) = Some x.
+Proof.
+  intros Hu Hk Hx Hnat Hf Hy Hsec Hday.
+  split.
+  { unfold dt_format. replace (x =? i64_min) with false by (symmetry; apply Z.eqb_neq; exact Hnat).
+    rewrite Hf. reflexivity. }
+  unfold fields_of_instant in Hf.
+  set (secs := x / per_sec u) in *. set (days := secs / 86400) in *. set (sod := secs mod 86400) in *.
+  pose proof (civil_roundtrip days) as HC.
+  destruct (civil_from_days days) as [[y m] d]. destruct HC as [Hv Hd].
+  destruct ((cr_min_year <=? y) && (y <=? cr_max_year)) eqn:Hyr; [|discriminate].
+  injection Hf as <-. cbn [f_y] in Hy.
+  assert (Hsod : 0 <= sod < 86400) by (subst sod; apply Z.mod_pos_bound; lia).
+  destruct (sod_fields sod Hsod) as (Hh & Hmi & Hs & Hsum).
+  pose proof (valid_date_bounds y m d Hv) as [Hm Hdd].
+  pose proof (nanos_bound u x Hu) as Hns.
+  set (f := mk_dtf y m d (sod / 3600) (sod / 60 mod 60) (sod mod 60)
+                   ((x mod per_sec u) * (giga / per_sec u))).
+  assert (Hok : fields_ok f) by (unfold fields_ok, f; cbn [f_y f_mo f_d f_h f_mi f_s f_ns]; tauto).
+  unfold parse_with. rewrite parse_items_listed by assumption.
+  unfold f. cbn [f_y f_mo f_d f_h f_mi f_s f_ns].
+  unfold to_naive_date, to_naive_time. cbn [p_y p_mo p_d p_h p_mi p_s p_ns].
+  rewrite Hyr, Hv, Hd. cbn [andb].
+  destruct (date_only k) eqn:Edo.
+  - (* date only: midnight *)
+    f_equal. subst days secs. apply instant_back_day; auto.
+  - replace (sod mod 60 =? 60) with false by (symmetry; apply Z.eqb_neq; lia).
+    rewrite Hsum. destruct (has_frac k) eqn:Ehf.
+    + f_equal. subst days sod secs. apply instant_back; assumption.
+    + f_equal. subst days sod secs. apply instant_back_sec; auto.
+Qed.
